@@ -269,3 +269,54 @@ func H_C13_closeerr() {
 	checkReads(db2, r, "C13e.contents")
 	vCover("C13e.done")
 }
+
+// H_C13_race: DB level, fs.OS over the kernel model, lock-file system calls are
+// scheduling points (engine flag lockYield): the owner's clean Close runs as one
+// thread, a second opener's Open as another, every interleaving of their lock-file
+// steps (stat/open/flock/fstat of the opener against unlink/close of the owner).
+// The opener either fails with the locked error and leaves the directory alone,
+// or succeeds - then the owner's session completed Close, so the Open must not
+// have run recovery, and it sees the owner's contents.
+func H_C13_race() {
+	n := 2
+	vlen := 2
+	rec := 10 + 8 + vlen
+	dir := "c13r"
+	db, err := Open(dir, smallOpts(fs.OS, 2, rec))
+	vAssert(err == nil, "C13r.open")
+	if err != nil {
+		return
+	}
+	r := newRef(n, 8)
+	applyOp(db, r, 0, 0, vlen, "C13r.put")
+	applyOp(db, r, 0, 1, vlen, "C13r.put")
+	efs := &errFS{inner: fs.OS}
+	var db2 *DB
+	var err2 error
+	var cerr error
+	vFlag("lockYield", 1)
+	vGo(func() { cerr = db.Close() })
+	vGo(func() { db2, err2 = Open(dir, smallOpts(efs, 2, rec)) })
+	vJoin()
+	vFlag("lockYield", 0)
+	vAssert(cerr == nil, "C13r.close.err")
+	if err2 != nil {
+		vAssert(vIsLocked(err2), "C13r.failed-open-reports-locked")
+		vAssert(efs.renames == 0, "C13r.failed-open-changes-nothing")
+		vCover("C13r.opener-rejected")
+		// the directory is intact: a later Open succeeds without recovery
+		efs3 := &errFS{inner: fs.OS}
+		db3, err := Open(dir, smallOpts(efs3, 2, rec))
+		vAssert(err == nil, "C13r.later-open-succeeds")
+		if err != nil {
+			return
+		}
+		vAssert(efs3.renames == 0, "C13r.clean-close-is-not-recovered")
+		checkReads(db3, r, "C13r.later")
+	} else {
+		vCover("C13r.opener-acquired")
+		vAssert(efs.renames == 0, "C13r.open-overlapping-a-clean-close-runs-no-recovery")
+		checkReads(db2, r, "C13r.acquired")
+	}
+	vCover("C13r.done")
+}
